@@ -857,7 +857,7 @@ theorem changedLoop_id (new : List Cfg) (maybe : List Str) (ws : List W) (nx : N
     rw [changedLoop_cons, hw.1, hw.2.1, hw.2.2, ih nx (fun w' hw' => h w' (List.mem_cons_of_mem _ hw'))]
     simp
 
-theorem State.ext' (a b : State) (h1 : a.ws = b.ws) (h2 : a.next = b.next) : a = b := by
+theorem state_ext (a b : State) (h1 : a.ws = b.ws) (h2 : a.next = b.next) : a = b := by
   cases a; cases b; simp_all
 
 /-- a daemon that is settled on `v` and runs exactly the watchers of `v` is left untouched by a
@@ -876,7 +876,7 @@ theorem reload_of_settled (st : State) (v : List Cfg) (hs : Settled st v)
     rw [List.filter_eq_nil_iff]; intro n hn; simp [(hnames n).2 hn]
   have ht : ∀ (l : List W), l.filter (fun _ => true) = l := by intro l; induction l <;> simp_all
   have hf : ∀ (l : List Cfg), l.filter (fun _ => false) = [] := by intro l; induction l <;> simp_all
-  apply State.ext'
+  apply state_ext
   · rw [reload_ws, hch, hdel, hadd, hloop]; simp [ht, hf, addLoop]
   · rw [reload_next, hch, hadd, hloop]; simp [hf, addLoop]
 
